@@ -21,7 +21,7 @@ let model toks =
       else failwith "ending"
     in
     let c = run init_ctx ops ending in
-    Printf.sprintf "store=%s t=%s y=%s p=%s code=%s new=%s spent=%s rcv=same" (tags c.c_store) (tags c.c_transfers)
+    Printf.sprintf "store=%s raw=%s t=%s y=%s p=%s code=%s new=%s spent=%s rcv=same" (tags c.c_store) (tags c.c_raw) (tags c.c_transfers)
       (match c.c_yield with None -> "-" | Some k -> string_of_n k)
       (tags c.c_provided) (string_of_n c.c_code) (string_of_n c.c_created) (string_of_n c.c_spent)
   | _ -> "BADCASE"
